@@ -135,12 +135,14 @@ CHECKS = {
     },
     "C13": {
         "family": "repo", "level": "proof", "modules": ["Gk.Props.C13"],
-        "components": ["repo", "recover", "next"],
-        "runs": lambda tier: [{"args": ["repo", "-impl", impl, "-profile", "recover", "-n",
+        "components": ["repo", "recover", "next", "srcfacts-sql"],
+        "runs": lambda tier: [{"args": ["srcfacts", "-facts", "sql"]}] + [{"args": ["repo", "-impl", impl, "-profile", "recover", "-n",
                                         str({"quick": 300, "thorough": 5000, "widen": 2000}[tier]), "-len", "40"]}
                               for impl in ("ent", "entfile")] +
                              [{"args": ["crash", "-n", str({"quick": 2, "thorough": 300, "widen": 20}[tier]), "-len", "30",
-                                        "-random", "20"], "seed_off": 5}],
+                                        "-random", "20"], "seed_off": 5},
+                              {"args": ["pipe", "-n", str({"quick": 60, "thorough": 6000, "widen": 600}[tier]), "-tasks", "25"],
+                               "seed_off": 6}],
         "rule": "lifecycle histories on ent/SQLite (in-memory and file-backed) interleaved with RevertDispatched / "
                 "CancelDispatched / DeleteEnded, compared with Spec.Repo after every op (result, full dump, GetNext); "
                 "the reverted tasks' later behaviour is checked by the C01/C12/C13 monitors on the same traces; crash runs: a "
@@ -148,10 +150,22 @@ CHECKS = {
                 "operation on a pipe and is SIGKILLed after every k-th acknowledgement and at random instants inside "
                 "operations; the parent reopens the file and the driver demands the dump to equal the model after the "
                 "acknowledged operations, with the one in flight fully applied or absent, then runs Revert/Cancel"
-                "Dispatched and a continued workload against the specification",
+                "Dispatched and a continued workload against the specification; `gkh srcfacts -facts sql` re-extracts from the "
+                "current sources that every mutation method of the ent repository has exactly one write-statement call "
+                "site, opens no transaction of its own and carries its lifecycle guard inside the WHERE clause (so a "
+                "kill leaves a mutation fully applied or absent); pipeline kills (`gkh pipe`): a child runs the whole "
+                "production pipeline (ent file, observable repository + hook timer, Scheduler, real WorkerPoolDispatcher "
+                "with 1..3 workers, real clocks, a feeder goroutine adding 25 tasks, work functions writing start / end "
+                "to an fsynced side-effect log) and acknowledges AddTask / Dispatched / TaskDone as the library reports "
+                "them; it is SIGKILLed after a random number of acknowledgements plus a random delay; after reopening: "
+                "acknowledged adds are present, acknowledged dispatches are at least dispatched, acknowledged completions "
+                "are recorded with the right outcome, no work function started twice or for a task that is not durably "
+                "dispatched, nothing is recorded as finished whose work function did not finish; then the content is "
+                "adopted by the specification and RevertDispatched / CancelDispatched plus a continued workload are "
+                "checked against it as in the crash runs",
         "trusted_base": COMMON_TB + ["SQLite's durability of an acknowledged auto-committed statement across SIGKILL and its "
                                      "atomic application of an unacknowledged one are sampled by the kill runs, not proved",
-                                     "the scheduler + worker-pool pipeline kill (side-effect log across restarts) is not built"],
+                                     "pipeline kills: what was acknowledged is read off the child's stdout; the side-effect log is fsynced per line"],
         "assumptions": REPO_ASSUME,
         "extra_mon": {"C01": r"^(rev|cdp) ", "C12": r"^(rev|cdp) "},
         "claim": "PARTIAL: the recovery logic is proved and tied; durability is sampled by SIGKILL runs at every operation "
@@ -246,20 +260,20 @@ CHECKS = {
         ("C20", "PARTIAL: inherits C03's open finding D3i; faults on every scheduler call incl. hook re-arming. Safety for every script; recovery: one fair fault-free Retry round resolves every retryable state and leaves no task dispatched-and-never-started (C20_recovery_eventual), under the driver discipline 'a retryable DispatchErr is answered with Retry'."),
     )},
     "C10": {
-        "family": "lin", "level": "proof", "modules": ["Gk.Props.C10"], "components": ["lin", "srcfacts-lock"],
+        "family": "lin", "level": "proof", "modules": ["Gk.Props.C10"], "components": ["lin", "srcfacts-lock", "srcfacts-sql"],
         "runs": lambda tier: {
             "quick": [{"args": ["lin", "-impl", "mem", "-n", "3000", "-g", "4", "-k", "2"]},
                       {"args": ["lin", "-impl", "mem", "-n", "1500", "-g", "3", "-k", "3"], "seed_off": 1},
                       {"args": ["lin", "-impl", "entfile", "-n", "150", "-g", "3", "-k", "2"]},
                       {"args": ["lin", "-impl", "mem", "-n", "600", "-g", "4", "-k", "2"], "race": True, "seed_off": 2},
-                      {"args": ["srcfacts", "-facts", "lock"]}],
+                      {"args": ["srcfacts", "-facts", "lock,sql"]}],
             "thorough": [{"args": ["lin", "-impl", "mem", "-n", "60000", "-g", "4", "-k", "2", "-procs", str(p)], "seed_off": p}
                          for p in (2, 4, 16)] +
                         [{"args": ["lin", "-impl", "mem", "-n", "20000", "-g", "2", "-k", "4"]},
                          {"args": ["lin", "-impl", "entfile", "-n", "3000", "-g", "4", "-k", "2"]},
                          {"args": ["lin", "-impl", "mem", "-n", "6000", "-g", "4", "-k", "2"], "race": True, "seed_off": 9},
                          {"args": ["lin", "-impl", "entfile", "-n", "300", "-g", "3", "-k", "2"], "race": True, "seed_off": 10},
-                         {"args": ["srcfacts", "-facts", "lock"]}],
+                         {"args": ["srcfacts", "-facts", "lock,sql"]}],
             "widen": [{"args": ["lin", "-impl", "mem", "-n", "30000", "-g", "4", "-k", "2"]}],
         }[tier],
         "rule": "real goroutines behind a barrier issue add / cancel / dispatch / update / done / get / next / find on "
@@ -269,7 +283,8 @@ CHECKS = {
                 "Spec.Repo; one run uses a race-detector build (a reported data race is a violation by itself); "
                 "`gkh srcfacts -facts lock` re-extracts from the current sources (go/ast) that every method of "
                 "InMemoryRepository, CronStore, volatileTaskRepo and MutationHookTimer takes the exclusive mutex with a "
-                "deferred unlock before its first access to a protected field (the hypothesis of C10_atomic_sections)",
+                "deferred unlock before its first access to a protected field (the hypothesis of C10_atomic_sections), and "
+                "(sql) that every ent mutation is one UPDATE whose lifecycle guard is in its WHERE clause",
         "trusted_base": COMMON_TB + ["that the Go code holds r.mu where the model assumes one atomic step, and that SQLite "
                                      "executes each conditional UPDATE atomically, is sampled by these runs, not proved"],
         "assumptions": ["histories are observations of real concurrent runs (not shrunk, a replay re-checks the recorded "
